@@ -409,6 +409,11 @@ def do_call(doc, op, sigs):
     return canon_isd(ISD.from_model(doc, F(op[1])))
   if k == "SNAPC":
     return canon_isd(ISD.from_model(doc, F(op[1]), sigs[op[2]]))
+  if k == "SWEEPSIG":
+    # cached snapshots over the whole time line of a kept significant-times object (paint rule applied)
+    s = sigs[op[1]]
+    ts = sweep_times(s)
+    return [(str(t), canon_isd(ISD.from_model(doc, t, s), True)) for t in ts]
   if k == "SEQ":
     return [(str(t), canon_isd(i)) for t, i in ISD.generate_isd_sequence(doc)]
   if k == "SRT":
@@ -421,6 +426,20 @@ def do_call(doc, op, sigs):
     tree.write(buf, encoding="utf-8")
     return buf.getvalue().decode("utf-8")
   raise core.HarnessError("op " + str(op))
+
+
+def sweep_times(s):
+  offs = list(s)
+  if len(offs) > 24:
+    step = len(offs) / 24.0
+    offs = [offs[int(k * step)] for k in range(24)]
+  ts = []
+  for i, t in enumerate(offs):
+    ts.append(t)
+    ts.append(t + Fraction(1, 1000))
+    if i + 1 < len(offs):
+      ts.append((t + offs[i + 1]) / 2)
+  return ts
 
 
 def guarded(fn):
@@ -451,7 +470,7 @@ def gen_time(rng, known_times):
 def gen_op(rng, knobs, nsig, known_times):
   kinds = knobs["ops_enabled"]
   k = rng.choices(kinds, [knobs["weights"][x] for x in kinds])[0]
-  if k == "SNAPC" and nsig == 0:
+  if k in ("SNAPC", "SWEEPSIG") and nsig == 0:
     k = "SIG"
   if k == "SIG":
     return ["SIG"]
@@ -461,6 +480,8 @@ def gen_op(rng, knobs, nsig, known_times):
     # bias to stale objects: the oldest one half of the time
     idx = 0 if rng.random() < 0.5 else rng.randrange(nsig)
     return ["SNAPC", gen_time(rng, known_times), idx]
+  if k == "SWEEPSIG":
+    return ["SWEEPSIG", 0 if rng.random() < 0.5 else rng.randrange(nsig)]
   if k == "SEQ":
     return ["SEQ"]
   if k == "SRT":
@@ -470,7 +491,7 @@ def gen_op(rng, knobs, nsig, known_times):
   return ["IMSC", rng.choice(IMSC_CFGS)]
 
 
-ALL_OPS = ["SIG", "SNAP", "SNAPC", "SEQ", "SRT", "VTT", "IMSC"]
+ALL_OPS = ["SIG", "SNAP", "SNAPC", "SWEEPSIG", "SEQ", "SRT", "VTT", "IMSC"]
 
 
 def gen_knobs(rng):
@@ -492,7 +513,7 @@ def gen_knobs(rng):
   if not enabled:
     enabled = list(ALL_OPS)
   w = {o: rng.choice([0.5, 1, 2, 4]) for o in enabled}
-  for heavy in ("SEQ", "SRT", "VTT", "IMSC"):
+  for heavy in ("SEQ", "SRT", "VTT", "IMSC", "SWEEPSIG"):
     if heavy in w:
       w[heavy] = w[heavy] * 0.4
   return {"recipe": recipe, "nops": rng.randint(4, 40), "ops_enabled": sorted(enabled), "weights": {o: w[o] for o in sorted(w)}}
@@ -535,10 +556,12 @@ def run_one(rng, case, stats, rec, log, ctx=None):
       op = gen_op(rng, knobs, len(sigs), known_times)
     else:
       op = case["ops"][step]
-      if op[0] == "SNAPC" and (not sigs):
+      if op[0] in ("SNAPC", "SWEEPSIG") and (not sigs):
         continue
       if op[0] == "SNAPC" and op[2] >= len(sigs):
         op = ["SNAPC", op[1], len(sigs) - 1]
+      if op[0] == "SWEEPSIG" and op[1] >= len(sigs):
+        op = ["SWEEPSIG", len(sigs) - 1]
     rec.op(op)
     stats.count("op." + op[0])
     nsig_before = len(sigs)
@@ -562,7 +585,12 @@ def run_one(rng, case, stats, rec, log, ctx=None):
       ref_sigs = []
       if op[0] == "SNAPC":
         ref_sigs = [None] * op[2] + [ISD.significant_times(ref_doc)]
-      ref = guarded(lambda: do_call(ref_doc, op, ref_sigs))
+      if op[0] == "SWEEPSIG":
+        stats.count("probe.whole_timeline_sweep")
+        times_ = sweep_times(sigs[op[1]])
+        ref = guarded(lambda: [(str(t), canon_isd(ISD.from_model(ref_doc, t), True)) for t in times_])
+      else:
+        ref = guarded(lambda: do_call(ref_doc, op, ref_sigs))
       if got[0] != ref[0]:
         raise core.Violation("I2.history-dependent-outcome:" + op[0], "%s on the shared document: %s; on a pristine equal document: %s" % (op, got[:2] if got[0] == "exc" else "ok", ref[:2] if ref[0] == "exc" else "ok"))
       if got[0] == "exc":
@@ -570,6 +598,9 @@ def run_one(rng, case, stats, rec, log, ctx=None):
         log.add(step, op, "raises", got[1])
         continue
       if got[1] != ref[1]:
+        if op[0] == "SWEEPSIG":
+          bad = [(a_[0], a_[1], b_[1]) for a_, b_ in zip(got[1], ref[1]) if a_ != b_][:1]
+          raise core.Violation("I3.cached-differs-from-uncached:timeline-sweep", "t=%s\ncached  =%s\nuncached=%s" % (bad[0][0], core.canon(bad[0][1])[:2500], core.canon(bad[0][2])[:2500]))
         raise core.Violation("I2.differs-from-pristine:" + op[0], "%s\nshared  =%s\npristine=%s" % (op, core.canon(got[1])[:3000], core.canon(ref[1])[:3000]))
       key = core.canon(op)
       if key in first_results:
